@@ -54,6 +54,7 @@ func main() {
 	ovPath := flag.String("overlay", "", "overlay json to write (path->path map)")
 	tags := flag.String("tags", "verif", "build tags")
 	baseOverlay := flag.String("base-overlay", "", "overlay json (Replace map) applied while loading")
+	access := flag.Bool("access", false, "also instrument field / map accesses (C09 builds)")
 	flag.Parse()
 	if *out == "" || *ovPath == "" {
 		die("need -out and -overlay")
@@ -114,6 +115,13 @@ func main() {
 			}
 			r := &rewriter{pkg: p, file: f, fset: p.Fset, rel: strings.TrimPrefix(name, *repo+"/")}
 			changed := r.rewrite()
+			if *access {
+				r.accessPass()
+				if r.needRT && !r.rtImported {
+					r.addImport()
+				}
+				changed = changed || r.changed
+			}
 			if !changed {
 				continue
 			}
@@ -150,6 +158,10 @@ func main() {
 	b, _ := json.MarshalIndent(overlay, "", " ")
 	if err := os.WriteFile(*ovPath, b, 0o644); err != nil {
 		die("%v", err)
+	}
+	if *access {
+		ab, _ := json.Marshal(acnt)
+		fmt.Fprintf(os.Stderr, "vrewrite: access %s\n", ab)
 	}
 	cb, _ := json.Marshal(cnt)
 	os.WriteFile(filepath.Join(*out, "counts.json"), cb, 0o644)
@@ -189,6 +201,7 @@ type rewriter struct {
 	skip    map[ast.Node]bool
 	hoisted map[ast.Stmt]bool
 	funcs   []string
+	rtImported bool
 }
 
 func (r *rewriter) fresh(p string) *ast.Ident {
@@ -398,6 +411,10 @@ func coreType(t types.Type) types.Type {
 }
 
 func (r *rewriter) addImport() {
+	if r.rtImported {
+		return
+	}
+	r.rtImported = true
 	spec := &ast.ImportSpec{Name: ast.NewIdent("vsched"), Path: &ast.BasicLit{Kind: token.STRING, Value: strconv.Quote(modPath + "/internal/vsched")}}
 	decl := &ast.GenDecl{Tok: token.IMPORT, Specs: []ast.Spec{spec}}
 	// after the last import declaration
